@@ -289,7 +289,9 @@ pub fn disc_union_area(discs: &[(P2, f64)]) -> f64 {
             }
             let dv = sub(*c2, *c);
             let d = norm(dv);
-            if d >= r + r2 {
+            // Tangent or barely overlapping discs: the lens area is O(depth^1.5) (< 1e-13 of the
+            // disc areas here) while the arc end points computed through acos are unstable there.
+            if d >= (r + r2) * (1. - 1e-9) {
                 continue;
             }
             // (containment was removed above, so the circles cross)
